@@ -13,7 +13,7 @@ mkdir -p $OUT
 cp $WT/MUTATION/patch.diff $OUT/patch.diff
 cp $WT/MUTATION/README.md $OUT/README.agent.md 2>/dev/null
 # the demonstration: untracked test files the agent left in the tree (outside MUTATION/)
-DEMOS=$(git -C $WT status --porcelain | awk '$1=="??"{print $2}' | grep '_test.go$' | grep -v '^MUTATION/')
+DEMOS=$(git -C $WT status --porcelain -uall | awk '$1=="??"{print $2}' | grep '_test.go$' | grep -v '^MUTATION/')
 D=$(mktemp -d /var/tmp/verif-confirm-XXXXXX)
 trap 'rm -rf "$D" /verif/build/$(python3 -c "import hashlib,sys;print(hashlib.sha1(sys.argv[1].encode()).hexdigest()[:10])" "$D/repo")' EXIT
 git -C /repo archive --format=tar --prefix=repo/ HEAD | tar -x -C "$D"
